@@ -85,6 +85,8 @@ def dispatch (prop mode : String) : Option (List String → String) :=
   | "C11", "modeldyn" => some EnvDynDriver.model
   | "C07", "modeldyn" => some EnvDynDriver.model
   | "C08", "modeldyn" => some EnvDynDriver.model
+  | "C12", "modeldyn" => some EnvDynDriver.model
+  | "C12", "specdyn" => some EnvDynDriver.spec
   | "C07", "specdyn" => some EnvDynDriver.spec
   | "C11", "specdyn" => some EnvDynDriver.spec
   | "C08", "modelhint" => some TreeHintDriver.model
